@@ -187,6 +187,24 @@ CLAIMS['C12'] = dict(
     technique='binding/evenness/difference-only shape rules + apex analysis '
     'with linear-inequality entailment', engine='E4-panels')
 
+CLAIMS['C07'] = dict(
+    category='other',
+    text='CAS certificates that the inline time formulas of evaluate equal '
+    'the time integral of the kernel in both time cases and that the closed '
+    'forms of evaluate_exact / spacetime_evaluated_1 / gint are the '
+    'integrals they claim (derivative identities + boundary values + the '
+    'right distances); causality exits sound and complete with no path '
+    'falling off evaluate_exact; grading end of every 1-D log rule '
+    '(in-element split, nearer-end selection with seam-aware distances, '
+    'tabulated mirrored/plain points); closed-form routing entails a '
+    'straight piece.  Accuracy classes (1e-8 / 5e-4 / 2e-3) not decided.',
+    design_ref='DESIGN.md section 3 E2/E3/E4 (R-grading-end), section 4 C07',
+    note='Trusted: ast, sympy, linear fact domain.  Not decided: accuracy '
+    'of the fixed log rule near the element.',
+    technique='CAS identity certificates on lifted formulas + path-'
+    'sensitive guard analysis + grading-end shape rules',
+    engine='E4-panels')
+
 PENDING = 'rule set not yet implemented in this build (see DESIGN.md Appendix F for the order)'
 NA = {
     'C13':
